@@ -123,7 +123,7 @@ func (s RateLimitedTokenRequestState) FinalizeToken(encryptedtokenResponse []byt
 	}
 
 	// salt = concat(enc, response_nonce)
-	salt := append(s.encapEnc, encryptedtokenResponse[:responseNonceLen]...)
+	salt := append(append([]byte{}, s.encapEnc...), encryptedtokenResponse[:responseNonceLen]...)
 
 	// prk = Extract(salt, secret)
 	prk := s.nameKey.suite.KDF.Extract(salt, s.encapSecret)
